@@ -456,10 +456,10 @@ Proof.
       set (W := if dw then [mask w (w_data i)] else []).
       destruct (lvl c =? 0) eqn:Elv.
       - (* inner block empty *)
-        rewrite (core_abs_nil (d - 1) c) by lia. unfold dir. rewrite Elv. cbn [negb andb app id].
+        rewrite (core_abs_nil (d - 1) c) by lia. subst dir. cbn [negb andb app id].
         destruct (rrdy s), (r_en i); reflexivity.
       - destruct (core_abs_hd (d - 1) c ltac:(lia) Hinv ltac:(lia)) as [t Ht].
-        rewrite Ht. unfold dir. rewrite Elv. cbn [negb andb].
+        rewrite Ht. subst dir. cbn [negb andb].
         destruct (rrdy s), (r_en i); cbn [negb orb andb app tl id]; try reflexivity.
     }
     rewrite Hql.
@@ -516,7 +516,9 @@ Lemma buf_readable_step w d s i x t : 0 <= d -> buf_inv d s -> buf_abs d s = x :
 Proof.
   intros Hd [H0|[[H1 Hb]|[H2 Hinv]]] Hq.
   - subst d. discriminate Hq.
-  - subst d. left. unfold buf_abs in Hq. unfold buf_out. cbn [Z.eqb] in *. cbn [r_rdy r_data].
+  - subst d. left. unfold buf_abs in Hq. unfold buf_out.
+    change (1 =? 0) with false in *. change (1 =? 1) with true in *. cbv iota in Hq |- *.
+    cbn [r_rdy r_data].
     destruct (blevel s =? 1); [|discriminate]. split; [reflexivity|]. congruence.
   - assert (E0 : (d =? 0) = false) by lia. assert (E1 : (d =? 1) = false) by lia.
     unfold buf_abs in Hq. rewrite E0, E1 in Hq.
@@ -530,4 +532,88 @@ Proof.
       destruct (core_abs_hd (d - 1) (inner s) ltac:(lia) Hinv Hpos) as [t' Ht].
       assert (Elv : (lvl (inner s) =? 0) = false) by lia.
       rewrite Elv. cbn [negb orb andb]. split; [reflexivity|]. congruence.
+Qed.
+
+Theorem buf_readable_within_two w d ins i x t : 0 <= d ->
+  let s := buf_reach w d ins in
+  buf_abs d s = x :: t ->
+  (r_rdy (buf_out d s) = true /\ r_data (buf_out d s) = x) \/
+  (r_rdy (buf_out d (fst (buf_step w d s i))) = true /\
+   r_data (buf_out d (fst (buf_step w d s i))) = x).
+Proof.
+  intros Hd s Hq. apply buf_readable_step with (t := t); auto. apply buf_reach_inv; assumption.
+Qed.
+
+(* an entry accepted while nothing is held is on the output one or two cycles later *)
+Theorem buf_fresh_entry_readable w d ins i1 i2 i3 : 0 <= d ->
+  let s0 := buf_reach w d ins in
+  let s1 := fst (buf_step w d s0 i1) in
+  let s2 := fst (buf_step w d s1 i2) in
+  buf_abs d s0 = [] -> w_rdy (buf_out d s0) && w_en i1 = true ->
+  let x := mask w (w_data i1) in
+  (r_rdy (snd (buf_step w d s1 i2)) = true /\ r_data (snd (buf_step w d s1 i2)) = x) \/
+  (r_rdy (snd (buf_step w d s2 i3)) = true /\ r_data (snd (buf_step w d s2 i3)) = x).
+Proof.
+  intros Hd s0 s1 s2 Hq Hw x.
+  pose proof (buf_reach_inv w d ins Hd) as Hinv. fold s0 in Hinv.
+  destruct (buf_step_ok w d s0 i1 Hd Hinv) as (Hi1 & Hr & Ha & _).
+  rewrite buf_step_out in Hr, Ha. fold s1 in Hi1, Ha. rewrite Hq, Hw in Ha.
+  assert (Er : r_rdy (buf_out d s0) = false).
+  { destruct (r_rdy (buf_out d s0)); [|reflexivity]. destruct (Hr eq_refl) as [t Ht]. rewrite Hq in Ht. discriminate. }
+  rewrite Er in Ha. cbn in Ha. fold x in Ha.
+  rewrite !buf_step_out.
+  exact (buf_readable_step w d s1 i2 x [] Hd Hi1 Ha).
+Qed.
+
+(* the assertions fifo.py itself states for platform = "formal" *)
+Lemma core_inv_asserts d c : 1 <= d -> core_inv d c ->
+  0 <= produce c < d /\ 0 <= consume c < d /\
+  (produce c = consume c -> lvl c = 0 \/ lvl c = d) /\
+  (produce c > consume c -> lvl c = produce c - consume c) /\
+  (produce c < consume c -> lvl c = d + produce c - consume c).
+Proof.
+  intros Hd (Hlen & Hc & Hl & Hp).
+  destruct (Z_lt_dec (consume c + lvl c) d) as [Hlt|Hge].
+  - rewrite Z.mod_small in Hp by lia. lia.
+  - assert (E : (consume c + lvl c) mod d = consume c + lvl c - d).
+    { symmetry. apply Z.mod_unique with 1; lia. }
+    rewrite E in Hp. lia.
+Qed.
+
+Theorem sync_formal_asserts w d ins : 1 <= d ->
+  let c := sync_reach w d ins in
+  Z.of_nat (length (rows c)) = d /\ 0 <= lvl c <= d /\
+  produce c = (consume c + lvl c) mod d /\
+  0 <= produce c < d /\ 0 <= consume c < d /\
+  (produce c = consume c -> lvl c = 0 \/ lvl c = d) /\
+  (produce c > consume c -> lvl c = produce c - consume c) /\
+  (produce c < consume c -> lvl c = d + produce c - consume c).
+Proof.
+  intros Hd c. destruct (sync_reach_inv w d ins ltac:(lia)) as [H0|[_ Hinv]]; [lia|]. fold c in Hinv.
+  pose proof (core_inv_asserts d c Hd Hinv). destruct Hinv as (? & ? & ? & ?). tauto.
+Qed.
+
+Theorem buf_formal_asserts w d ins : 2 <= d ->
+  let c := inner (buf_reach w d ins) in
+  Z.of_nat (length (rows c)) = d - 1 /\ 0 <= lvl c <= d - 1 /\
+  produce c = (consume c + lvl c) mod (d - 1) /\
+  0 <= produce c < d - 1 /\ 0 <= consume c < d - 1 /\
+  (produce c = consume c -> lvl c = 0 \/ lvl c = d - 1) /\
+  (produce c > consume c -> lvl c = produce c - consume c) /\
+  (produce c < consume c -> lvl c = d - 1 + produce c - consume c).
+Proof.
+  intros Hd c. destruct (buf_reach_inv w d ins ltac:(lia)) as [H0|[[H1 _]|[_ Hinv]]]; try lia. fold c in Hinv.
+  pose proof (core_inv_asserts (d - 1) c ltac:(lia) Hinv). destruct Hinv as (? & ? & ? & ?). tauto.
+Qed.
+
+(* SyncFIFO: whatever is held is readable at once *)
+Theorem sync_readable_now w d ins x t : 0 <= d ->
+  let c := sync_reach w d ins in
+  sync_abs d c = x :: t -> r_rdy (sync_out d c) = true /\ r_data (sync_out d c) = x.
+Proof.
+  intros Hd c Hq.
+  destruct (sync_refines_queue w d ins (Inp false 0 false) Hd) as (Hr & Hh & _).
+  fold c in Hr, Hh. rewrite sync_step_out in Hr, Hh.
+  assert (Hne : sync_abs d c <> []) by (rewrite Hq; discriminate).
+  apply Hr in Hne. split; [exact Hne|]. destruct (Hh Hne) as [t' Ht]. congruence.
 Qed.
